@@ -36,4 +36,54 @@ Definition run_typed (s : str) : sx :=
                 res_sx (new_jid (full j)); res_sx (new_jid (bare j))]
   end.
 
-Definition run_C15 : sx -> sx := with_input dec_input run_typed.
+(* ---- histories (several calls in one process) ----
+   Input: a list of steps instead of a string:
+     (0 s)                 NewJid(s), observed at once: (2) | (0) | (1 node domain resource full bare)
+     (1 k f v)             the caller assigns v to field f (0 Node, 1 Domain, 2 Resource) of the Jid
+                           step k returned (nothing happens when step k returned none); shows (3)
+     (2 rounds s1 .. sn)   n goroutines, goroutine i parses s_i [rounds] times, observing each result
+                           at once and then assigning to its fields; shows (4 (r_1,1 .. r_1,rounds) ..)
+   Output: (3 obs_1 .. obs_m), by Model/Jid.v run_hist from an empty heap. *)
+Definition one_sx (s : str) (r : result) : sx :=
+  if slash_before_at s then SL [SZ 2] else
+  match r with
+  | Err => SL [SZ 0]
+  | Ok j => SL [SZ 1; SS (node j); SS (domain j); SS (resource j); SS (full j); SS (bare j)]
+  end.
+
+Definition dec_field (z : Z) : option jfield :=
+  if z =? 0 then Some FNode else if z =? 1 then Some FDomain else if z =? 2 then Some FResource else None.
+
+Definition dec_step (x : sx) : option hstep :=
+  match x with
+  | SL [SZ 0; SS s] => Some (HParse s)
+  | SL [SZ 1; SZ k; SZ f; SS v] => do f' <- dec_field f; Some (HMut (Z.to_nat k) f' v)
+  | SL (SZ 2 :: SZ n :: ss) => do ss' <- omap as_s ss; Some (HPar ss' (Z.to_nat n))
+  | _ => None
+  end.
+
+Definition obs_sx (st : hstep) (o : hobs) : sx :=
+  match st, o with
+  | HParse s, OParse r => one_sx s r
+  | HMut _ _ _, OMut => SL [SZ 3]
+  | HPar ss _, OPar rs =>
+      SL (SZ 4 :: map (fun p => SL (map (one_sx (fst p)) (snd p))) (combine ss rs))
+  | _, _ => decode_error
+  end.
+
+Definition run_hist_sx (h : list hstep) : sx :=
+  SL (SZ 3 :: map (fun p => obs_sx (fst p) (snd p)) (combine h (run_hist [] h))).
+
+Inductive c15_input := IStr (s : str) | IHist (h : list hstep).
+
+Definition dec_any (x : sx) : option c15_input :=
+  match x with
+  | SS s => Some (IStr s)
+  | SL l => do h <- omap dec_step l; Some (IHist h)
+  | _ => None
+  end.
+
+Definition run_any (i : c15_input) : sx :=
+  match i with IStr s => run_typed s | IHist h => run_hist_sx h end.
+
+Definition run_C15 : sx -> sx := with_input dec_any run_any.
